@@ -19,7 +19,8 @@ LEVEL_TEXT = ("For every PDAG code on p<=4 nodes (quick) and p<=5 (thorough, 4^1
               "rule firing as the only applicable rule, so a run that never needed rule 3 or 4 is visible.")
 LEVEL_NOTE = "Trusted: brute-force extension enumerator. Beyond p=5 sampled (<= 9 undirected, <= 11 edges)."
 RULE = ("cases: PDAG codes (one base-4 digit per node pair) with acyclic directed part.  distinct = distinct graph; "
-        "non-trivial = at least one undirected edge or no consistent extension")
+        "non-trivial = at least one undirected edge or no consistent extension"
+        ' Also: relabelled embeddings of all p<=4 and sampled p=5 PDAGs, array presentations, debug=True, repeat after the caller overwrote the result.')
 ASSUMPTIONS = ["brute-force oracle correct", "maximally_orient is only judged on PDAGs that admit an extension (the property's scope)"]
 EXHAUSTIVE = {"quick": True, "thorough": True}
 SOFT_LIMIT = {"quick": 240, "thorough": 1700}
